@@ -109,6 +109,7 @@ fn draw_writer(rng: &mut Rng) -> (WriterCfg, Vec<u8>) {
         3 => 2,
         4 => 3,
         5 => *rng.pick(&[7usize, 255, 256, 4095]),
+        6 => rng.urange(0, 5000),
         _ => rng.urange(0, 40),
     };
     let prefix = if pl >= 20 && rng.bool() {
